@@ -3,6 +3,7 @@ package props
 
 import (
 	"bytes"
+	"os"
 	"fmt"
 	"math/rand/v2"
 	"strconv"
@@ -133,7 +134,15 @@ func LatticePoints(r *rand.Rand, n int, keepPadding, minifySingle bool) []POpts 
 	return out
 }
 
-func parseAs(src []byte, lang syntax.LangVariant, keepComments bool) (*syntax.File, error) {
+func parseAs(src []byte, lang syntax.LangVariant, keepComments bool) (f *syntax.File, err error) {
+	defer func() {
+		if e := recover(); e != nil {
+			// a parser panic while generating or checking: make the input visible
+			// (C06 owns the verdict on panics; here it must not be lost)
+			fmt.Fprintf(os.Stderr, "PARSER PANIC lang=%s keep=%v src=%q: %v\n", lang, keepComments, src, e)
+			panic(e)
+		}
+	}()
 	p := syntax.NewParser(syntax.Variant(lang), syntax.KeepComments(keepComments))
 	return p.Parse(bytes.NewReader(src), "")
 }
